@@ -1,5 +1,10 @@
+# the etcd double imports go.etcd.io/etcd/api/v3 (indirect in /repo/go.mod). ./check runs every `go test` on a private
+# copy of go.mod (-modfile), so /repo/go.mod is never rewritten; the double's files additionally carry the build tag
+# verifc15etcd (the later -tags flag replaces the runner's `-tags verif`) so that no OTHER build of ./pkg/cluster under
+# the overlay - a hand-run `go test` without -modfile - compiles them.
 PROP = {
-    "lean_modules": ["GunYu.Props.C15"],
+    "lean_modules": ["GunYu.Props.C15", "GunYu.Props.C15Etcd", "GunYu.Props.C15Ticker"],
+    "gens": ["c15etcd", "c15ticker"],
     "audit_namespaces": ["GunYu.Props.C15"],
     "required_theorems": [
         "GunYu.Props.C15.at_most_one_holder",
@@ -28,6 +33,20 @@ PROP = {
         "GunYu.Props.C15.renew_le_third",
         "GunYu.Props.C15.lease_bounds",
         "GunYu.Props.C15.two_renewals_within_ttl",
+        # etcd election (cluster.metaEtcd)
+        "GunYu.Props.C15.etcd_at_most_one_holder",
+        "GunYu.Props.C15.etcd_at_most_one_holder_always",
+        "GunYu.Props.C15.etcd_holder_is_first_created",
+        "GunYu.Props.C15.etcd_success_only_first_or_free",
+        "GunYu.Props.C15.etcd_refused_when_foreign",
+        "GunYu.Props.C15.etcd_failed_renew_reports_loss",
+        "GunYu.Props.C15.etcd_resign_only_own",
+        "GunYu.Props.C15.etcd_expiry_bound",
+        "GunYu.Props.C15.etcd_takeover_possible",
+        # clusterTicker with election calls of any duration
+        "GunYu.Props.C15.tickd_leader_within_hold",
+        "GunYu.Props.C15.tickd_leads_within_hold",
+        "GunYu.Props.C15.ticker_retry_is_two",
     ],
     # Only the part of cmd/syncer.go that NO harness executes is pinned by source facts: runCluster after its first
     # campaign (syncer start/stop around the ticker, resign): the order of the calls that matter and the control-flow
@@ -44,11 +63,21 @@ PROP = {
         "lease_timer_arm": "time.Until(leaseFrom.Add(sc.leaseHold()))",
         "lease_timer_rearm": "time.Until(sentAt.Add(sc.leaseHold()))",
         "lease_hold_expr": "time.Duration(int(cc.LeaseTimeout/time.Second))*time.Second - cc.LeaseRenewInterval",
+        # etcd: the part of etcd_cluster.go / config.go that cannot run without a server (NewEtcdCluster): how the
+        # session is made and where its TTL comes from. The requests themselves are regenerated (Gen/EtcdElection.lean).
+        "etcd_key_expr": 'fmt.Sprintf("%s%x", e.keyPrefix, e.sess.Lease())',
+        "etcd_try_args": ["ctx", "e.id"],
+        "etcd_session_args": ["cli", "concurrency.WithTTL(cfg.Ttl)"],
+        "etcd_newelection_fields": ["cli: c.cli", "keyPrefix: electionPath", "sess: c.sess", "id: id"],
+        "etcd_ttl_assign": ["cc.MetaEtcd.Ttl = int(cc.LeaseTimeout / time.Second)"],
     },
     "harness": [
         {"name": "C15", "pkg": "./pkg/cluster/", "test": "TestVerifC15", "timeout_quick": "10m", "timeout_thorough": "40m"},
+        {"name": "C15etcd", "pkg": "./pkg/cluster/", "test": "TestVerifC15Etcd", "timeout_quick": "10m", "timeout_thorough": "30m",
+         "go_flags": ["-tags", "verif,verifc15etcd"]},
         {"name": "C15fix", "pkg": "./config/", "test": "TestVerifC15Fix"},
         {"name": "C15cmd", "pkg": "./cmd/", "test": "TestVerifC15Cmd", "timeout_quick": "10m", "timeout_thorough": "30m"},
+        {"name": "C15tick", "pkg": "./cmd/", "test": "TestVerifC15Tick", "timeout_quick": "10m", "timeout_thorough": "30m"},
     ],
     "driver": "drv_C15",
     "rule": "event lists: corpus; ALL lists of length<=4 (quick) / <=5 (thorough) over {campaign a, campaign b, renew a, resign a, resign b, "
@@ -77,6 +106,32 @@ PROP = {
             "script of length<=2 also followed by 10 failures, + random scripts, periods 1-200 s, leases >= 3 periods: calls with their "
             "virtual instants, when/how the syncer's wait is closed and when clusterTicker RETURNS vs Lean tickerRun (exact periods / same-instant reaction are compared THERE only); shared "
             "ops: one client shared by two elections used concurrently while a reply is stalled. "
+            "CLUSTER-type lease store (C15): the same event lists (corpus `ctrace`; ALL lists of length<=3 quick / <=4 thorough over {campaign a, campaign b, "
+            "renew a, resign a, tick ttl/2, tick ttl+1, lost-but-applied campaign b, slot of the key -> node 0, -> node 1, leader}; generated lists with slot "
+            "moves mixed in) through NewRedisCluster with a cluster-type configuration = the REAL cluster client (EVAL routed by the key's slot, GET located "
+            "with COMMAND GETKEYS, -MOVED handled by re-issuing on the node named, CLUSTER SLOTS refresh) against a 3-node double sharing the lease key space "
+            "(`mv:<key>:<node>` re-assigns the slot, its keys move with it); same model, same monitors (counters cluster_requests_moved_and_reissued, "
+            "cluster_trace_with_redirect). ETCD election (C15etcd): the REAL etcdElection.Campaign/Renew/Resign/Leader + the real clientv3 KV/Txn code + the "
+            "real concurrency.Session on an in-process etcd double that receives the protobuf requests (no etcd binary): event lists of session grants "
+            "(lease ids incl. 2^63-1 and ids whose hex collides across prefixes - correspondence only), keep-alives that arrive or not, Session.Close, ticks "
+            "aimed at lease deadlines -1/0/+1 ms, Campaign/Renew/Resign with the request lost before or after it was applied (Campaign: its Txn or its "
+            "Delete), a Campaign HELD between its transaction and its Delete while others resign / expire / renew / campaign (ALL windows of length<=2 "
+            "quick / <=3 thorough x 3 prefixes x 3 suffixes x Delete ok / lost / applied-lost), ALL lists of length<=3 quick / <=4 thorough over 12 events "
+            "of two sessions, generated lists of 2-40 events with 1-4 sessions on 1-3 prefixes; every result, the key space with create revisions and "
+            "leases, the store revision, the REAL fields e.key / e.rev of every election object and the holders vs Lean Etcd.step (requests = regenerated "
+            "AST). Monitors (etcd): etcd-two-holders, etcd-success-over-foreign-key, etcd-success-without-key, etcd-failed-renew-not-reported, "
+            "etcd-told-leader-without-answer, etcd-foreign-key-changed, etcd-resign-released-foreign-key, etcd-key-without-lease (an election key not "
+            "attached to its session's lease never expires). Tie-level only (a difference is a broken tie, not a violation): the requests each call "
+            "issues (erequests op), the private fields e.key / e.rev and the store revision in the etrace lines. TICKER with calls of any duration (C15tick): the REAL clusterTicker "
+            "under synctest, answers that take a scripted time (shorter than a tick, spanning one, spanning several = ticks kept / dropped by the Go "
+            "ticker, longer than the hold) or never return, the wait closed by somebody else at a given instant or before the start, the campaign's answer "
+            "arriving late (little hold left): ALL scripts of length<=3 quick / <=4 thorough over 7 answers for both roles, each short one with 4 outside "
+            "closes, + random (periods 1-30 s); calls with send instants, close, return vs Lean tickerRunD (retry count and re-arm base regenerated from the source: the base counts as 'from the send' only if "
+            "the re-arm expression is time.Until(x.Add(sc.leaseHold())) with x := time.Now() standing before the statement that starts the call AND x is "
+            "assigned nowhere else in the function; re-assigned to time.Now() = 'from the answer' (the theorem then no longer builds); any other shape: "
+            "the generator fails); every branch of clusterTicker counted (tickd_branch_*); monitor leads-past-its-lease on answered successes. contendsrc ops: two "
+            "hosts whose configurations spell ONE source differently through the real InitSyncerConfig + run(): OBSERVATION only (counters contendsrc_*; two "
+            "keys = two leases, outside the property; two leaders under one spelling are reported). "
             "Monitors on the real code (independent of Lean; each demands only what C15 states - inequalities relative to ttl, never the "
             "implementation's particular constants): two-holders, two-hosts-told-leader, success-over-foreign-lease, told-leader-without-answer, "
             "success-without-lease (told leader => the store holds the caller's value at least until its deadline), failed-renew-not-reported, "
@@ -91,15 +146,39 @@ PROP = {
         "conversion, atomicity of one EVAL; non-negative decimal ttl only",
         "Lua-subset parser of the extractor (harness/extract/c15.go) - cross-checked each run against an independently written "
         "parser+interpreter in the lease-store double on the script text the real code sends",
+        "etcd semantics transcribed TWICE by hand, in Model/EtcdLease.lean and in the etcd double (harness/overlay/pkg/cluster/vf_c15etcd_store_test.go), "
+        "and compared with each other only through the election code (no etcd binary to cross-check): a transaction is validated as a whole (empty key: "
+        "refused; put on the executed branch with an unknown lease: refused) and applied atomically, reads inside it see its earlier writes, one new "
+        "revision per writing request = create revision of the keys it creates, WithFirstCreate = prefix range / least create revision / limit 1, a key "
+        "attached to a lease vanishes when the lease expires (now > deadline) or is revoked, a keep-alive sets the deadline to now + TTL, the server "
+        "grants a lease id once. Not modelled: the revision consumed by a lease expiry (the election code compares create revisions for equality and "
+        "takes the minimum), mod revisions, watches, compaction, an EMPTY election prefix (the client turns it into the whole key space; never generated)",
+        "the etcd client library's lessor (keep-alive every TTL/3, re-connect) is NOT run: keep-alives are harness events with any schedule; "
+        "concurrency.NewSession / Session.Close and the clientv3 KV / Txn request builders are the real ones",
+        "cluster mode of the lease-store double: -MOVED for a key of a slot the node does not own (nothing executed), CLUSTER SLOTS, COMMAND GETKEYS; "
+        "a slot move takes its keys along. Not transcribed: ASK / migrating-importing states, replicas, fail-over",
         "lease-store double (RESP server, logical clock, fault injection) in harness/overlay/pkg/cluster/vf_hook_c15_store.go; host part of a peer address: only the spellings '' / 0.0.0.0 / :: of the unspecified address are modelled (Model/Lease.lean unspecHost)",
     ],
     "assumptions": [
         "script atomicity and ONE authoritative clock at the lease store (no claim about wall-clock skew between an instance and the store: "
         "'holder' is defined on the store's clock from the instant the script ran)",
-        "the lease store IS the source Redis (client.NewRedis(Input.Redis)): a fail-over of the source loses or forks the lease; reached as "
-        "a standalone connection in the harness - a cluster-type input (EVAL routed by key, MOVED, re-issue on another node) is not exercised",
-        "the lease key is built from the source shard's master ADDRESS as each instance sees it (not a shard identity): instances with "
-        "different views of a shard's master (during a source fail-over) contend on different keys for one shard. Outside the model",
+        "the lease store IS the source Redis (client.NewRedis(Input.Redis)), or the etcd cluster of cluster.metaEtcd: a fail-over of the source that "
+        "loses the key (asynchronous replication) or a slot re-assigned WITHOUT its keys loses or forks the lease. Exercised: standalone connection and "
+        "a cluster-type input whose slots move WITH their keys (-MOVED, re-issue on the node named); not exercised: ASK during a migration, fail-over",
+        "ELECTION KEY = <ns>/<group>/input-election/<A>/ where A is the source shard's master ADDRESS STRING as THIS instance knows it (cmd/syncer.go "
+        "runCluster: cfg.Input.GetClusterShard(cfg.Input.Address()).Master.Address - for a standalone input the string written under "
+        "input.redis.addresses, for a cluster input the address CLUSTER NODES reports to this instance). The property is per LEASE (= per key): "
+        "instances that name one source by different strings contend through different leases and are outside its quantifier, exactly as two hosts "
+        "both configured localhost:18001 are one contender. Two ways this happens: instances with different views of a shard's master during a source "
+        "fail-over (unreachable for the harness); two hosts whose configurations spell one source differently (127.0.0.1:p / localhost:p) - observed on "
+        "every run by the contendsrc ops (both are told leader, on two keys; counter contendsrc_observed_two_leaders_on_two_keys_spellings_differ, "
+        "corpus/C15/d_source_spelling.txt): an operator error no local check can see (deployment rule: the same input section on every host of a "
+        "group), not reported",
+        "etcd: every etcd theorem is about the election key in the STORE ('holder' = told leader and its key still there at the create revision it "
+        "knows); 'stops renewing' = no keep-alive of the session's lease reaches the store - keep-alives are sent by the etcd client library's lessor "
+        "(not run by any harness), never by the election code; the server grants a lease id once",
+        "etcd lease ttl = int(LeaseTimeout/second) (config fix, source fact etcd_ttl_assign) handed to concurrency.WithTTL (fact etcd_session_args): "
+        "NewEtcdCluster itself (clientv3.New + availability probe) cannot run without a server and is tied by these two facts only",
         "instance ids are the configured peer STRINGS (server.listenPeer, else server.listen); equal strings = one contender. Since fix "
         "6c9227b a cluster-mode configuration without a configured address or with an unspecified host is refused (before, every "
         "default-configured host contended as 127.0.0.1:18001 and each was told leader). Host names and loopback are taken as written: two "
@@ -134,7 +213,27 @@ PROP = {
         "at_most_one_holder), lost_resign_only_own, holder_until_deadline and the first conjunct of expiry_bound (told is frozen while the "
         "instance does not call), election_id_configured / distinct_addresses_distinct_ids (the 3-line definition electionId read backwards; "
         "their content is the tie of electionId to the real configuration code through run())",
-        "ticker theorems are about the 10-line model tickerRun (tied by all scripts <= 4/6 + random under virtual time), not about cmd/syncer.go directly",
+        "ticker: two hand-written models of clusterTicker, both executed against the REAL function under virtual time: tickerRun (calls answer at once "
+        "or never; theorems ticker_*) and tickerRunD (every answer has a duration, Go ticker keeps one tick / drops the rest, outside close, closed at "
+        "entry; theorems tickd_*); the driver checks that they agree on every duration-free scenario, no general equivalence proof. Regenerated from "
+        "cmd/syncer.go: the retry count and the base of the re-arm expression (Gen/TickerParams.lean) - the loop structure itself (select / goroutine / "
+        "close on error) is hand-transcribed and pinned by the skeleton fingerprint + the branch counters tickd_branch_* (all non-zero). Scenarios in "
+        "which two instants coincide (a Go select with two ready cases) and slow FAILING answers are excluded by construction",
+        "corollaries / pins kept by name, not counted as content: etcd_at_most_one_holder_always (etcd_at_most_one_holder on evs.take n), "
+        "acting_intervals_disjoint (at_most_one_acting on evs.take n), at_most_one_acting_with_drift (at_most_one_acting with hold := H+D+S; D, S not "
+        "measured), ticker_retry_is_two (rfl on a generated constant); TAllowed (hypothesis of the acting theorems) is linked to tickd_* in prose only - "
+        "no theorem from tickerRunD to trunOk",
+        "etcd: success / refusal theorems are for fault-free calls of a live session on a non-empty prefix; expiry_bound / takeover need '/'-terminated "
+        "prefixes (as runCluster builds them: two prefixes whose keys could collide are correspondence-only); the key space starts empty (foreign junk "
+        "under a prefix is not covered; the Redis model takes any initial store)",
+        "OBSERVATION about the etcd path, outside C15 (whose text is about the Redis-based lease): NO acting bound with cluster.metaEtcd. Nothing reads "
+        "Session.Done(); Renew is only a Get and extends nothing; the lease timer of 8b531f9 is re-armed by every successful Renew, so it measures "
+        "'last successful READ + hold', unrelated to the key's remaining life; acting_has_lease / at_most_one_acting are Redis-only and do not carry "
+        "over. Witness (Props/C15Etcd.lean etcdActingWitness, checked by decide): grant 1 3, campaign 1, tick 3000, renew 1 -> nil (at the deadline "
+        "instant), tick 1, grant 2 3, campaign 2 -> leader while 1 is still told leader (at the store: one holder, 2); instance 1 goes on running "
+        "RunLeader until its next Renew (<= one renew period, if its Gets are answered) or until the timer (last Renew + hold). A repair would watch "
+        "Session.Done() / arm the timer from keep-alive responses; not attempted (outside the property)",
+        "cluster-type lease store: exercised (correspondence + monitors), no separate model - the single-store model is the specification; -ASK is not generated",
     ],
 }
 
@@ -148,10 +247,18 @@ MANIFEST = {
             "that tick (clusterTicker model, executed for real under virtual time); in cluster mode the election id is an address written in the "
             "configuration (default-identity defect found and fixed: 6c9227b); ClusterConfig.fix yields 3s<=lease<=600s, 1s<=renew<=lease/3, ttl in [3,600]. The Go glue "
             "(Campaign/Renew/Resign/Leader through the real RESP client) and fix are tied by differential correspondence against a "
-            "lease-store double; independent monitors check the property on the real code's answers.",
+            "lease-store double (standalone and cluster-type: MOVED / re-issue); independent monitors check the property on the real code's answers. "
+            "Etcd election (cluster.metaEtcd): the requests of etcd_election.go regenerated into an AST (Gen/EtcdElection.lean), evalTxn over a key space "
+            "with create revisions and leases; for EVERY list of grant/keep-alive/revoke/campaign/renew/resign/tick events with lost requests and a "
+            "Campaign cut between its transaction and its Delete: at most one session per prefix was told leader with its key still in the store, a "
+            "holder's key is the first-created one, success only when no foreign key is older, failed renewal = ErrNotLeader/ErrNoLeader, resign removes "
+            "only the own key at the remembered revision, a session without keep-alive holds nothing once its deadline has passed; the real election code "
+            "+ real clientv3 request builders + real concurrency.Session run against an in-process etcd double. clusterTicker with calls of ANY duration "
+            "(tickerRunD, parameters regenerated): it returns within hold of the SEND of the last successful call.",
     "note": "trusted: Lean kernel (propext, Classical.choice, Quot.sound only), Redis/Lua semantics of the subset as transcribed, script "
             "atomicity + single store clock, extractor's Lua parser (cross-checked against the double's interpreter), lease-store double; "
-            "cmd/syncer.go loop tied only by source facts",
+            "etcd semantics (transcribed in model and double, no etcd binary), etcd client lessor not run; "
+            "cmd/syncer.go loop after the first campaign tied only by source facts; with metaEtcd no acting bound (observation in partial)",
     "technique": "Lean 4 proof (symbolic evaluation of the regenerated script ASTs to closed-form specs, invariant + induction over event "
                  "lists, omega for durations) + differential correspondence over loopback RESP + independent monitors",
 }
